@@ -355,7 +355,7 @@ def c07(ctx):
     if thorough:
         tlc_must_hold(ctx, "Relay", "Relay_MCbig.cfg", timeout=1500)
     tlc_must_fail(ctx, "Relay", "Relay_Attack_NoIsolation.cfg")
-    build_relay_bins(ctx, race=thorough)
+    build_relay_bins(ctx, race=True)     # the fault scenarios run the agent's race-detector build
     go_build_harness(ctx)
     events, _ = drive(ctx, "relay", mode="faults", timeout=2400)
     # what each victim observed (information for the evidence file)
@@ -1196,10 +1196,16 @@ def c15(ctx):
     ctx.rule = ("cases = each-class sweep + seeded combinations over closer x amount of data in each direction x write segment size {1, small, 1024, 1025, 64 KB} x "
                 "read buffer size {1, 7, 1024, 4096, 64 KB} (domains exported by TLC) through the real tcp-bridge-frontend and tcp-bridge-backend binaries with harness "
                 "TCP peers at both ends, all 256 byte values, both directions at once; 4 (quick) / 16 (thorough) concurrent connections with 256 KB / 8 MB each way; "
-                "plain HTTP GET and POST to the bridge backend; distinct = class combinations")
+                "plain HTTP GET and POST to the bridge backend; plus the connection package used directly (DialWebsocket's net.Conn <-> connection.Handler in process) with "
+                "read buffers of 1 B .. 64 KB on the websocket side, 18 single connections and 2 (thorough 10) rounds of 16 connections at once; distinct = class combinations")
     ctx.assumptions = ["content of every read is compared with the expected stream position by the harness (reported as ok) and the byte counts are judged by TcpBridgeTrace",
                        "close events are projected away for C15 (they are judged by C16)"]
     events = bridge_run(ctx)
+    # the same property at the level of the connection package (DialWebsocket's net.Conn against connection.Handler in
+    # process): read buffers smaller than a message exercise the partially consumed message, which the 32 KB copy
+    # buffers of the bridge binaries never do
+    lib_events, _ = drive(ctx, "bridgelib", timeout=1800)
+    events = events + lib_events
     ev = []
     for e in events:
         if e.get("ev") == "PeerEOF":
